@@ -138,7 +138,80 @@ func c05Overlap(t *testing.T, o *vOut, ca *vCA, n int, lat time.Duration, otherF
 	})
 }
 
+// Two issuers, the first one down at renewal time: the fall-back issuer's certificate is stored
+// next to the old one of the first issuer. The renewed certificate is the one served from then
+// on, and the next pass finds nothing due (it does not order again).
+func c05Fallback(t *testing.T, o *vOut, ca *vCA) {
+	synctest.Test(t, func(t *testing.T) {
+		st := vNewMem()
+		life := 90 * 24 * time.Hour
+		issA, issB := vNewIssuer("c05ca-a", ca), vNewIssuer("c05ca-b", ca)
+		issA.Lifetime, issB.Lifetime = life, life
+		cache, cfg := vNewCfg(st, []Issuer{issA, issB}, func(c *Config, co *CacheOptions) {
+			co.RenewCheckInterval = 100 * 365 * 24 * time.Hour
+			co.OCSPCheckInterval = 100 * 365 * 24 * time.Hour
+		})
+		defer cache.Stop()
+		ctx := context.Background()
+		name := "fb0.example"
+		if err := cfg.ManageSync(ctx, []string{name}); err != nil {
+			t.Fatalf("C05 fallback preparation: %v", err)
+		}
+		adv := 61 * 24 * time.Hour
+		time.Sleep(adv)
+		issA.Behave = func(int, []string) error { return ErrNoRetry{Err: fmt.Errorf("verif: first issuer down")} }
+		okCalls := func() int {
+			n := 0
+			for _, is := range []*vIssuer{issA, issB} {
+				for _, c := range is.Calls() {
+					if c.Err == "" {
+						n++
+					}
+				}
+			}
+			return n
+		}
+		ok0 := okCalls()
+		servedIsNewest := func() int {
+			res, err := cfg.loadCertResource(ctx, issB, name)
+			cert, gerr := cfg.GetCertificate(c05Hello(name))
+			if err != nil || gerr != nil || cert == nil || len(cert.Certificate) == 0 {
+				return 0
+			}
+			blk, _ := pem.Decode(res.CertificatePEM)
+			if blk == nil || !bytes.Equal(blk.Bytes, cert.Certificate[0]) {
+				return 0
+			}
+			return 1
+		}
+		cache.RenewManagedCertificates(ctx)
+		synctest.Wait()
+		time.Sleep(time.Minute)
+		synctest.Wait()
+		own1, served1 := okCalls()-ok0, servedIsNewest()
+		cache.RenewManagedCertificates(ctx)
+		synctest.Wait()
+		time.Sleep(time.Minute)
+		synctest.Wait()
+		own2, served2 := okCalls()-ok0, servedIsNewest()
+		replay := map[string]any{"variant": "fallback", "issued_after_pass_1": own1, "issued_after_pass_2": own2, "served_newest_1": served1, "served_newest_2": served2}
+		if own1 != 1 {
+			o.Mon("C05 overlap not-renewed-once", replay)
+		}
+		if own2 != own1 {
+			o.Mon("C05 overlap renewed-again-although-renewed", replay)
+		}
+		if served1 == 0 || served2 == 0 {
+			o.Mon("C05 overlap renewed-certificate-not-served", replay)
+		}
+		o.Line("overlap %d 1 fallback msync:0 adv:%d pass adv:60 pass => %d %d", int64(life/time.Second), int64(adv/time.Second), own2, served1&served2)
+		o.Stat("overlap_runs", 1)
+		o.Stat("overlap_fallback", 1)
+	})
+}
+
 func c05Overlaps(t *testing.T, o *vOut, ca *vCA) {
+	c05Fallback(t, o, ca)
 	lats := []time.Duration{time.Second, 45 * time.Second, 20 * time.Minute}
 	for _, n := range []int{1, 3} {
 		for _, lat := range lats {
